@@ -290,6 +290,10 @@ func genC07(r *hx.Rand, thorough bool) *c07Case {
 	}
 	if r.Chance(1, 2) {
 		q := ""
+		if r.Chance(1, 3) {
+			// a custom qualifier, also one that holds the identifier quote of the dialect
+			q = hx.Pick(r, []string{"tenant", "ten`ant", "ten\"ant", "t'x", "a.b", "`", "\""})
+		}
 		opts = append(opts, func(o *migrate.PlanOptions) { o.SchemaQualifier = &q })
 	}
 	var plan *migrate.Plan
